@@ -229,7 +229,7 @@ def run(report, p):
     r4.instance(sp, sp.node, "set_patterns order")
     groups = {"existing": [], "list": [], "file": []}
     for call, tg in p.calls[sp.qual]:
-        if any(t.startswith(SPEC + "._append") for t in tg) and call.args:
+        if any(t.startswith(SPEC + ".") and t != sp.qual for t in tg) and call.args and isinstance(call.func, ast.Attribute) and isinstance(call.func.value, ast.Name) and call.func.value.id == "self":
             a0 = norm(call.args[0])
             if a0 == sp.params[1] or "default_ignore_list" in a0:
                 groups["existing"].append(g.node_for(call))
